@@ -141,6 +141,7 @@ def gen_case(r, n=None, dims=(1, 1, 2, 2, 3, 4, 5), exact_only=False, spec=None,
         spec = {"kind": "offset", "c": r.choice([1e10, 1e6, -1e9, 12345678.5]), "s": r.choice([1.0, 1.0, 1e-4]), "of": spec}
     lower, upper = box if box is not None else gen_box(r, n)
     m = m if m is not None else gen_density(r, n)
+    m = common.cap_density(lower, upper, m)
     lim = lim if lim is not None else r.choice(LIMITS)
     eps = eps if eps is not None else r.choice(EPSS)
     rr = rr if rr is not None else round(r.uniform(1.05, 6.0), 2)
